@@ -44,7 +44,7 @@ def run(ctx):
     ctx.require("full_flush_checked", c.get("full_flush_checked", 0), 300)
     ctx.require("barriers", c.get("barriers", 0), 200)
     ctx.require("filter_updates", c.get("filter_updates", 0), 50)
-    ctx.require("early_end_cases", c.get("early_end_cases", 0), 50)
+    ctx.require("early_end_cases", c.get("early_end_cases", 0), 30)
     ctx.require("reinit_same_threads", c.get("reinit_same_threads", 0), 30)
     ctx.require("reinit_other_threads", c.get("reinit_other_threads", 0), 30)
     ctx.require("multi_block_outputs", c.get("multi_block_outputs", 0), 500)
